@@ -96,7 +96,7 @@ void ep_blind(ep_t r, const ep_t p) {
 		fp_mul(r->z, p->z, rand);
 		fp_mul(r->y, p->y, rand);
 		fp_sqr(rand, rand);
-		fp_mul(r->x, r->x, rand);
+		fp_mul(r->x, p->x, rand);
 		fp_mul(r->y, r->y, rand);
 		r->coord = JACOB;
 #endif
